@@ -11,6 +11,16 @@ one() {
   mkdir -p "$VC"; rsync -a --exclude .git --exclude build --exclude replays --exclude seeded /verif/ "$VC/"; mkdir -p "$VC/build" "$VC/replays"
   (cd "$VC" && SYMGO_REPO="$W" timeout 1800 ./bin/symgo run $PROP quick > /tmp/rg_$NAME.log 2>&1); RC=$?
   echo "$NAME exit=$RC violations=$(grep -c '^VIOLATION' /tmp/rg_$NAME.log)"
+  python3 - "$NAME" "$RC" <<'PY'
+import json,sys,re
+name,rc=sys.argv[1],int(sys.argv[2])
+p='/verif/seeded/%s/meta.json'%name
+m=json.load(open(p))
+h=sorted(set(re.findall(r'replays/C\d\d-(\w+?)-\d+\.json',open('/tmp/rg_%s.log'%name).read())))
+m['regression']={'quick_exit':rc,'caught':rc==1,'caught_by':h}
+m['caught_by']=', '.join(h)
+json.dump(m,open(p,'w'),indent=1)
+PY
   git -C /repo worktree remove --force "$W"; rm -rf "$VC"
 }
 export -f one
